@@ -21,7 +21,7 @@ def exec_plans(exe, plans, log=False, timeout=120):
     except subprocess.TimeoutExpired:
         rc, out, err = -9, "", "timeout"
     os.unlink(path)
-    r = {"rc": rc, "cls": None, "detail": "", "hash": None, "first_bad": None, "hashes": [], "neutral": [], "logs": [], "stderr": err}
+    r = {"rc": rc, "cls": None, "detail": "", "hash": None, "first_bad": None, "hashes": [], "neutral": [], "logs": [], "nlogs": [], "stderr": err}
     inflight = None
     for line in out.splitlines():
         if line.startswith("B "):
@@ -36,12 +36,13 @@ def exec_plans(exe, plans, log=False, timeout=120):
             r["detail"] = rest[len(r["cls"]):].lstrip(" |")
             r["hash"] = parts[2]
             r["first_bad"] = int(parts[1]); inflight = None
-        elif line.startswith("L "):
+        elif line.startswith("L ") or line.startswith("M "):
             sp = line.split(" ", 2)
+            key = "logs" if line[0] == "L" else "nlogs"
             try:
-                r["logs"].append(json.loads(sp[2]))
+                r[key].append(json.loads(sp[2]))
             except Exception:
-                r["logs"].append(sp[2])
+                r[key].append(sp[2])
     if r["cls"] is None and rc not in (0, 1):
         c = core.classify_sanitizer(err)
         if c:
